@@ -125,6 +125,10 @@ def cases(chk):
         msg = rb(rng, 32); sig = btc.schnorr_sign(sec, msg)
         out.append(("verify_sig", "verify-sig", [D(msg), D(xk), D(sig)]))
         out.append(("verify_sig", "verify-sig", [D(msg), D(xk), D(sig[:10] + bytes([sig[10] ^ 1]) + sig[11:])]))
+        if i == 0:
+            for bad in (sig[:63], sig + b"\x01", sig[:2], sig + sig):        # a BIP340 signature has 64 bytes
+                out.append(("verify_sig", "verify-sig", [D(msg), D(xk), D(bad)]))
+                out.append((None, "verify-sig-compact", [D(msg), D(xk), D(bad)]))
     # arithmetic on public keys, ECDSA verification (DER and compact), echo
     for i in range(5 if quick else 40):
         s1 = rng.randrange(1, N); s2 = rng.randrange(1, N)
